@@ -4,8 +4,22 @@ M = 'gambatools.cfg_algorithms'
 PT = 'Map[Atom,List[List[Atom]],default=list]'
 XT = 'Map[(Int,Int),Set[Atom],default=set]'
 
-contract('gambatools.cfg', 'CFG.is_chomsky', {'self': 'CFG'}, returns='Bool', verify=False, ensures=['result == cnf(self)'], theories=[], props=['C07', 'C08'],
-         note='list comprehensions over isinstance(symbol, Terminal / Variable): the str-subclass tags are not part of the value model; checked against an independent CNF recogniser by the bounded stand-ins of C07 / C08')
+MC = 'gambatools.cfg'
+_SY = 'self.symbols'
+_ALT_CNF = '(len(%s) == 0 or (len(%s) == 1 and not vtag(%s[0])) or (len(%s) == 2 and vtag(%s[0]) and vtag(%s[1])))'
+_VARS = 'all((x in result) == any(%s[k] == x and vtag(x) for k in range(len(%s))) for x in atoms())'
+contract(MC, 'Alternative.is_chomsky', {'self': 'Alternative'}, returns='Bool', ensures=['result == ' + _ALT_CNF % ((_SY,) * 6)], theories=[], props=['C07', 'C08', 'C12'],
+         note='the shape of a Chomsky alternative: empty, one terminal, or two variables (isinstance tests on the symbols: assumption A-tags)')
+contract(MC, 'Alternative.is_variable', {'self': 'Alternative'}, returns='Bool', ensures=['result == (len(%s) == 1 and vtag(%s[0]))' % (_SY, _SY)], theories=[], props=['C12'])
+contract(MC, 'Alternative.is_terminal', {'self': 'Alternative'}, returns='Bool', ensures=['result == (len(%s) == 1 and not vtag(%s[0]))' % (_SY, _SY)], theories=[], props=['C12'])
+contract(MC, 'Alternative.variables', {'self': 'Alternative'}, returns='Set[Atom]', ensures=[_VARS % (_SY, _SY)], theories=[], props=['C07', 'C08'])
+_RS = 'self.alternative.symbols'
+contract(MC, 'Rule.is_chomsky', {'self': 'Rule'}, returns='Bool', ensures=['result == ' + _ALT_CNF % ((_RS,) * 6)], theories=[], props=['C07', 'C08', 'C12'])
+contract(MC, 'Rule.is_unit_rule', {'self': 'Rule'}, returns='Bool', ensures=['result == (len(%s) == 1 and vtag(%s[0]))' % (_RS, _RS)], theories=[], props=['C12'])
+contract(MC, 'Rule.variables', {'self': 'Rule'}, returns='Set[Atom]', ensures=[_VARS % (_RS, _RS)], theories=[], props=['C07', 'C08'])
+contract(MC, 'CFG.is_chomsky', {'self': 'CFG'}, returns='Bool', ensures=['result == cnf(self)'], theories=['cfg'], props=['C07', 'C08'],
+         note='the Chomsky normal form test against its definition (every rule has the Chomsky shape, the start variable occurs on no right-hand side, only the start variable has an epsilon rule); '
+              'isinstance(symbol, Variable / Terminal) is the predicate vtag on symbols (assumption A-tags: every symbol object of a rule is a Variable or a Terminal and its class is determined by its string)')
 
 _P_OK = ['all(in_unit(lookup_list(P, A), a) == has_unit(G, A, a, %s) for A in atoms() for a in atoms())',
          'all(in_bin(lookup_list(P, A), B, C) == has_bin(G, A, B, C, %s) for A in atoms() for B in atoms() for C in atoms())']
@@ -126,3 +140,11 @@ contract(_MC, 'check_cfg_has_right_hand_sides_of_length_at_most_two', {'G': 'CFG
          ensures=['(len(result) == 0) == all(len(G.R[t].alternative.symbols) <= 2 for t in range(len(G.R)))'],
          loops={1: {'ghost': 'idx', 'invariant': ['all(implies(0 <= t and t < idx, len(G.R[t].alternative.symbols) <= 2) for t in ints())']}},
          theories=[], props=['C12', 'C19'], note='no feedback exactly when no right-hand side has more than two symbols')
+contract(_MC, 'check_cfg_has_no_unit_productions', {'G': 'CFG'}, returns='List[Text]',
+         ensures=['(len(result) == 0) == all(not (len(G.R[t].alternative.symbols) == 1 and vtag(G.R[t].alternative.symbols[0])) for t in range(len(G.R)))'],
+         loops={1: {'ghost': 'idx', 'invariant': ['all(implies(0 <= t and t < idx, not (len(G.R[t].alternative.symbols) == 1 and vtag(G.R[t].alternative.symbols[0]))) for t in ints())']}},
+         theories=[], props=['C12', 'C19'], note='no feedback exactly when no rule is a unit rule (one variable on the right-hand side)')
+contract(_MC, 'check_cfg_is_chomsky', {'G': 'CFG'}, returns='List[Text]',
+         ensures=['(len(result) == 0) == all(%s for t in range(len(G.R)))' % (_ALT_CNF % (('G.R[t].alternative.symbols',) * 6))],
+         loops={1: {'ghost': 'idx', 'invariant': ['all(implies(0 <= t and t < idx, %s) for t in ints())' % (_ALT_CNF % (('G.R[t].alternative.symbols',) * 6))]}},
+         theories=[], props=['C12', 'C19'], note='no feedback exactly when every rule has the Chomsky shape')
